@@ -2,6 +2,7 @@
   C02 — code blocks observe the true match context (text, pos, labels).
 -/
 import PigeonVerif.Proofs.StoreLemmas
+import PigeonVerif.Proofs.CtxLog
 
 namespace PV
 namespace RT
@@ -94,6 +95,28 @@ theorem C02_pos_pure (E : Env) (a b : Savepoint) (ha : Reach E.input a) (hb : Re
     (h : a.pos.off = b.pos.off) : a.pos = b.pos ∧ a.rn = b.rn ∧ a.w = b.w := by
   have := Reach.unique ha hb h
   subst this; exact ⟨rfl, rfl, rfl⟩
+
+/-! ### whole run: every block call sees the input at its position -/
+
+/-- **C02 (e) — whole run, every configuration.** Whatever the grammar, code, template variant and options (Memoize, left
+    recursion, a budget), input and depth: in the state the start rule returns (or panics in), EVERY block invocation
+    recorded in the trace - action, predicate or state block, however much backtracking, memoised skipping or seed growing
+    preceded it - was given a `text` that is the input at the byte offset of the `pos` it was given:
+    `text = input[pos.offset, pos.offset + len(text))`. For actions `pos` is the match start and `text` the match
+    (`C02_action_ctx`); predicate and state blocks get what the last action left (finding D2), still a piece of the input at
+    that place. Proof: `Proofs/CtxLog.lean`, one induction over all node kinds and wrappers. -/
+theorem C02_every_block_sees_the_input_at_its_position (E : Env) (fuel : Nat) (r : Rule) :
+    match parseRuleWrap E (parseExpr E fuel) fuel r (startState E) with
+    | .done _ _ s' => ∀ ev ∈ s'.trace, ev.text = (E.input.drop ev.pos.off).take ev.text.length
+    | .panic _ s' => ∀ ev ∈ s'.trace, ev.text = (E.input.drop ev.pos.off).take ev.text.length
+    | .oof => True := by
+  have h := ruleWrap_ci (parseExpr_ci E fuel) fuel r (startState E) (startState_ci E)
+  revert h
+  generalize parseRuleWrap E (parseExpr E fuel) fuel r (startState E) = o
+  cases o with
+  | oof => intro _; trivial
+  | done v ok s' => intro h; exact h.2
+  | panic p s' => intro h; exact h.2
 
 end RT
 end PV
